@@ -1,4 +1,4 @@
-import ScionVerif.Lemmas.Comb
+import ScionVerif.Lemmas.CombSpec
 /-!
 # C04 — path combination is sound, complete, loop-free, duplicate-free and ordered; metadata truthful
 
@@ -70,5 +70,96 @@ theorem expiry_is_min {src dst : Nat} {cores nonCores : List Seg} {out : List Pa
   rcases offered_from_candidate h hp with ⟨_, _, s, _, hsp⟩
   rcases solPath_path hsp with ⟨mtu, ifs, segs, expiry, f, l, _, _, hex, henc, _, _, _, rfl⟩
   exact pathExpiry_spec hex (encodeOk_hops_ne henc)
+
+/-! ## 4. sound: every offered path is a combination allowed by the SCION rules -/
+
+/-- **Soundness, all inputs.**  Every offered path is realised by a combination that the declarative
+rules of `Spec/Combine.lean` allow for the given segments, source and destination: one to three valid
+pieces of given segments, kinds `up?·core?·down?`, consecutive pieces meeting at one AS or across a
+peering link recorded on both sides, starting at `src` and ending at `dst`; the data-plane segments
+(direction and peering flags, initial SegID, timestamp, hop fields in travel order) and the interface
+list are exactly those the specification assigns to that combination; `src_ia` / `dst_ia` are the ASes
+of its first / last interface. -/
+theorem sound {src dst : Nat} {cores nonCores : List Seg} {out : List Path}
+    (h : combine src dst cores nonCores = .ok out) {p : Path} (hp : p ∈ out) :
+    ∃ c : List Spec.Piece, Spec.Valid (inputSegs cores nonCores) src dst c ∧
+      Spec.realises c = (p.segs, p.ifs) ∧
+      p.ifs.head?.map (·.1) = some p.src ∧ p.ifs.getLast?.map (·.1) = some p.dst := by
+  rcases offered_from_candidate h hp with ⟨_, _, s, hs, hsp⟩
+  have hr := solPath_realises hsp
+  exact ⟨s.edges.map pieceOf, candidate_valid hs, hr.1, hr.2.2.1, hr.2.2.2⟩
+
+/-! ## 5. metadata: MTU -/
+
+theorem natFoldlMin_le (l : List Nat) : ∀ (a : Nat), l.foldl min a ≤ a ∧ ∀ t ∈ l, l.foldl min a ≤ t := by
+  induction l with
+  | nil => intro a; simp
+  | cons b bs ih =>
+    intro a
+    simp only [List.foldl_cons]
+    have h1 := (ih (min a b)).1
+    have h2 := (ih (min a b)).2
+    refine ⟨by omega, ?_⟩
+    intro t ht
+    rcases List.mem_cons.mp ht with ht | ht
+    · subst ht; omega
+    · exact h2 t ht
+
+theorem natFoldlMin_mem (l : List Nat) : ∀ (a : Nat), l.foldl min a = a ∨ l.foldl min a ∈ l := by
+  induction l with
+  | nil => intro a; simp
+  | cons b bs ih =>
+    intro a
+    simp only [List.foldl_cons]
+    rcases ih (min a b) with h | h
+    · by_cases hm : a ≤ b
+      · left; rw [h]; omega
+      · right; rw [h]; simp; left; omega
+    · right; exact List.mem_cons_of_mem _ h
+
+/-- **The MTU of an offered path is the minimum over the traversed ASes and links**, all inputs.
+There is a candidate solution `s` realising `p` such that `p.mtu` is the minimum of `u16::MAX` and the
+values `solMtuTerms s`: for every AS entry the solution traverses its AS-internal MTU (as the code
+reads it: truncated to `u16`), the MTU of its ingress link unless that link is not traversed (shortcut
+cut) or absent (`0`), and the MTU of the peering link at a peering cut (`linkTerm`, `mtuTerms`).
+So no traversed AS or link has a smaller MTU than announced, and the announced value is attained. -/
+theorem mtu_is_min {src dst : Nat} {cores nonCores : List Seg} {out : List Path}
+    (h : combine src dst cores nonCores = .ok out) {p : Path} (hp : p ∈ out) :
+    ∃ s ∈ candidates (graphOf (inputSegs cores nonCores)) src dst, solPath s = .path p ∧
+      p.mtu = (solMtuTerms s).foldl min MTU_INIT ∧
+      p.mtu ≤ MTU_INIT ∧ (∀ t ∈ solMtuTerms s, p.mtu ≤ t) ∧
+      (p.mtu = MTU_INIT ∨ p.mtu ∈ solMtuTerms s) := by
+  rcases offered_from_candidate h hp with ⟨_, _, s, hs, hsp⟩
+  have hr := (solPath_realises hsp).2.1
+  refine ⟨s, hs, hsp, hr, ?_, ?_, ?_⟩
+  · rw [hr]; exact (natFoldlMin_le _ _).1
+  · rw [hr]; exact (natFoldlMin_le _ _).2
+  · rw [hr]; exact natFoldlMin_mem _ _
+
+/-- what `solMtuTerms` contains: the AS MTU of every traversed AS entry and every `linkTerm` -/
+theorem mem_solMtuTerms {s : Sol} {t : Nat} :
+    t ∈ solMtuTerms s ↔ ∃ e ∈ s.edges, ∃ x ∈ e.seg.seg.entries.zipIdx, e.edge.shortcut ≤ x.2 ∧
+      (t = x.1.mtu % 2 ^ AS_MTU_CAST_BITS ∨ linkTerm e.edge.shortcut e.edge.peer x = some t) := by
+  unfold solMtuTerms edgeMtuTerms mtuTerms
+  simp only [List.mem_flatMap, List.mem_reverse, List.mem_append, List.mem_singleton, Option.mem_toList]
+  constructor
+  · rintro ⟨e, he, x, hx, ht⟩
+    refine ⟨e, he, x, List.mem_of_mem_drop hx, (used_entry hx).2, ?_⟩
+    rcases ht with ht | ht
+    · exact Or.inr ht
+    · exact Or.inl ht
+  · rintro ⟨e, he, x, hx, hle, ht⟩
+    refine ⟨e, he, x, ?_, ?_⟩
+    · rcases List.getElem_of_mem hx with ⟨i, hi, hxi⟩
+      have hi2 : x.2 = i := by rw [← hxi]; simp
+      rw [List.mem_iff_getElem]
+      refine ⟨i - e.edge.shortcut, by simp at hi ⊢; omega, ?_⟩
+      rw [List.getElem_drop]
+      have : e.edge.shortcut + (i - e.edge.shortcut) = i := by omega
+      simp only [this]
+      exact hxi
+    · rcases ht with ht | ht
+      · exact Or.inr ht
+      · exact Or.inl ht
 
 end ScionVerif.Comb
